@@ -192,8 +192,10 @@ class RegionBoundingBox:
         ymin = self.iymin
         ymax = self.iymax
 
-        if xmin >= shape[1] or ymin >= shape[0] or xmax <= 0 or ymax <= 0:
+        if (max(xmin, 0) >= min(xmax, shape[1])
+                or max(ymin, 0) >= min(ymax, shape[0])):
             # no overlap of the bounding box with the input shape
+            # (this includes empty bounding boxes and zero-sized shapes)
             return None, None
 
         slices_large = (slice(max(ymin, 0), min(ymax, shape[0])),
